@@ -60,6 +60,10 @@ struct RecFrame<'a> {
 pub(crate) enum SaphyrParser<'a> {
     StringParser(Parser<'a, StrInput<'a>>),
     StreamParser(StreamParser<'a>),
+    /// verification hook (compiled only by Kani): a one-shot scripted source of raw parser events,
+    /// so that a harness can play the parser for a single step of the pump.
+    #[cfg(kani)]
+    Scripted(Option<Result<(Event<'a>, Span), ScanError>>),
 }
 
 impl<'input> SaphyrParser<'input> {
@@ -67,6 +71,8 @@ impl<'input> SaphyrParser<'input> {
         match self {
             SaphyrParser::StringParser(parser) => parser.next(),
             SaphyrParser::StreamParser(parser) => parser.next(),
+            #[cfg(kani)]
+            SaphyrParser::Scripted(slot) => slot.take(),
         }
     }
 }
